@@ -7,13 +7,14 @@ CFG = {
     "level_text": ("seeded exploration of part-transfer sessions: the real pub chunk sender talks to the real sub.SyncPart receiver state machine over an in-memory "
                    "stream on which each request/response can be bit-flipped, truncated, dropped, duplicated, reordered or the stream cut; oracle: an install is byte-identical "
                    "to the sender's part or does not happen, a sender told 'success' implies exactly one install, a fault-free retry installs exactly once"),
-    "level_note": "scenario cluster-stream is the stream counterpart of cluster-measure (liaison write queue, part sync to 1-3 data nodes, distributed query; element timestamps also exactly on day-segment boundaries); trusted: the recording part handler stands for the engines' handlers (install = FinishSync, discard = Close); gRPC transport itself is replaced by the in-memory stream pair",
+    "level_note": "scenario cluster-trace: the same span batches go to a cluster (liaison with the real trace write queue, in-memory merge and syncer, 1-3 data nodes) and to a standalone trace node; span times straddle midnights inside one write batch, batches arrive back to back and with clock steps; after the queue drained every trace is queried by id over the whole range and over ranges inside ONE day segment (cluster = standalone, spans stamped inside the range all returned once); scenario cluster-stream is the stream counterpart of cluster-measure (liaison write queue, part sync to 1-3 data nodes, distributed query; element timestamps also exactly on day-segment boundaries); trusted: the recording part handler stands for the engines' handlers (install = FinishSync, discard = Close); gRPC transport itself is replaced by the in-memory stream pair",
     "budget": {"quick": 40, "thorough": 900},
     "rule": ("each seed draws chunk size (1 byte .. > part), 1-3 parts with 1-3 part types and 1-5 files of boundary sizes (0,1,chunk-1,chunk,chunk+1,2*chunk..), receiver ordering knobs, "
              "and 0-2 wire faults at tape-chosen message positions; lockstep scenario = real sender+receiver, pipelined scenario = recorded real request sequence replayed with "
              "reorder/dup/drop/flip/early end. Non-trivial = at least one fault fired; distinct = distinct canonical event-log digests"),
     "expected_probes": ["fault.short_reads_of_part_files", "fault.req.flip-data", "fault.req.dup", "fault.req.drop", "fault.req.cut", "fault.resp.drop", "fault.reorder_delay", "fault.early_stream_end",
-                        "reach.session_failed_cleanly", "reach.faulted_session_still_succeeded"],
+                        "reach.session_failed_cleanly", "reach.faulted_session_still_succeeded",
+                        "reach.several_data_nodes", "reach.batch_straddles_segment_boundary", "reach.narrow_query_in_newer_segment_compared", "reach.cluster_trace_answers_compared"],
     "real_vs_stub": {
         "real": ["banyand/queue/pub chunkedSyncClient (SyncStreamingParts, chunking, retries)", "banyand/queue/sub server.SyncPart (sessions, reorder buffer, checksum, completion)"],
         "stub": ["gRPC/HTTP2 transport (in-memory stream pair through a hook in the generated client constructor)", "engine part handlers (recording handler)", "clock (synctest)"],
